@@ -5,6 +5,7 @@ package main
 import (
 	"fmt"
 	"go/token"
+	"go/types"
 	"strings"
 
 	"golang.org/x/tools/go/ssa"
@@ -16,9 +17,9 @@ func init() {
 		Title: "Go API: faithful value stack, exact call contract, object ops equal Lua ops",
 		Explanation: "Decided: R10-share — 'object-level calls give exactly what the corresponding Lua expression gives' holds by construction iff the API forwards to the VM's own helper: GetTable/SetTable/GetField/SetField/Equal/RawEqual/LessThan/Concat/GetMetatable/Next/GetGlobal/SetGlobal are single forwarding calls with their parameters in order and the stated constants, and the matching VM handler calls the same helper; " +
 			"R10-bounds — 'never read or disturb values belonging to callers': in Get and Replace every register access whose index derives from an API index is guarded by a comparison with the current frame's base (negative indices) or with the registry top (positive indices); indexToReg returns -1 below the base; Remove and Insert clamp at the base; Pop raises on underflow before popping; GetTop is top minus base; SetTop never cuts below the base. " +
-			"R04-events shared — ObjLen consults __len for every operand type that is not a string, as the VM's OP_LEN does. R02-copies — every go-inlined copy of a frame/registry helper (initCallFrame, pushCallFrame, closeUpvalues, registry.Set/SetTop/CopyRange/checkSize …; ~130 blocks in state.go and vm.go) has the same statements as the definition it names, so the host-side call path (callR → pushCallFrame) and the VM's CALL/TAILCALL paths set a frame up alike. NOT decided: the NRet contract of Call/PCall/CallByParam, callGFunction's result selection, growth under pushes.",
+			"R04-events shared — ObjLen consults __len for every operand type that is not a string, as the VM's OP_LEN does. R02-copies — every go-inlined copy of a frame/registry helper (initCallFrame, pushCallFrame, closeUpvalues, registry.Set/SetTop/CopyRange/checkSize …; ~130 blocks in state.go and vm.go) has the same statements as the definition it names, so the host-side call path (callR → pushCallFrame) and the VM's CALL/TAILCALL paths set a frame up alike. R10-retcount — in every host function of the libraries, a constant `return k` is reached only after at least k pushes, and a `return 0` is not preceded by pushes on every path (a prepared result is not dropped). NOT decided: the NRet contract of Call/PCall/CallByParam, callGFunction's result selection, growth under pushes.",
 		Trusted: []string{},
-		Rules:   []func(*Ctx){ruleShare, ruleApiBounds, ruleEvents, ruleInlineCopies},
+		Rules:   []func(*Ctx){ruleShare, ruleApiBounds, ruleEvents, ruleInlineCopies, ruleRetCount},
 	})
 }
 
@@ -307,5 +308,124 @@ func ruleApiBounds(c *Ctx) {
 			}
 		})
 		c.check(okc && n > 0, R, "Remove:not-below-base", p.pos(fn.Pos()), "shifting starts at or above the frame base", "Remove can shift registers below the frame base")
+	}
+}
+
+
+// ruleRetCount: a host function returns the number of results it pushed. For every `return k` with a
+// constant k in a function of type LGFunction whose paths to that return are loop-free, the number of
+// values pushed on each path is compared with k: fewer pushes than k hands out whatever lies below
+// (arguments), pushes with k == 0 drop a result the code evidently meant to return.
+func ruleRetCount(c *Ctx) {
+	const R = "R10-retcount"
+	c.floor(R, 150)
+	p := c.P
+	pushL := p.Fn("lua", "(*LState).Push")
+	pushR := p.Fn("lua", "(*registry).Push")
+	for _, fn := range p.srcFuncs {
+		if fn.Pkg == nil || fn.Pkg.Pkg.Path() != luaPath || fn.Signature.Recv() != nil {
+			continue
+		}
+		sig := fn.Signature
+		if sig.Params().Len() != 1 || sig.Results().Len() != 1 || !strings.HasSuffix(sig.Params().At(0).Type().String(), ".LState") {
+			continue
+		}
+		if bt, ok := sig.Results().At(0).Type().(*types.Basic); !ok || bt.Kind() != types.Int {
+			continue
+		}
+		g := p.G(fn)
+		loops := g.loops()
+		inLoop := map[*ssa.BasicBlock]bool{}
+		for _, li := range loops {
+			for b := range li.Body {
+				inLoop[b] = true
+			}
+		}
+		// pushes per block
+		npush := map[*ssa.BasicBlock]int{}
+		other := map[*ssa.BasicBlock]bool{} // calls that may push an unknown number (helpers taking L)
+		for _, b := range fn.Blocks {
+			for i, in := range b.Instrs {
+				if cut := g.Cut[b]; cut >= 0 && i > cut {
+					break
+				}
+				if _, isCall := in.(*ssa.Call); !isCall {
+					continue
+				}
+				if isCallTo(in, pushL, pushR) {
+					npush[b]++
+					continue
+				}
+				if sc := staticCallee(in); sc != nil && sc.Pkg != nil && sc.Pkg.Pkg.Path() == luaPath {
+					switch sc.Name() {
+					case "Call", "PCall", "CallByParam", "XMoveTo", "Insert", "SetTop", "Pop", "Remove", "Replace", "callR":
+						other[b] = true
+					}
+					// helpers that return a count themselves are handled by the non-constant return
+				}
+			}
+		}
+		nret := 0
+		for _, b := range fn.Blocks {
+			if !g.LiveBlock(b) {
+				continue
+			}
+			ret, ok := b.Instrs[len(b.Instrs)-1].(*ssa.Return)
+			if !ok {
+				continue
+			}
+			k, isK := constInt(ret.Results[0])
+			if !isK || !g.Live(ret) {
+				continue
+			}
+			// min/max pushes over loop-free paths entry → b (DFS over predecessors; give up at loops)
+			memo := map[*ssa.BasicBlock][2]int{}
+			busy := map[*ssa.BasicBlock]bool{}
+			giveUp := false
+			var rec func(x *ssa.BasicBlock) [2]int
+			rec = func(x *ssa.BasicBlock) [2]int {
+				if v, ok := memo[x]; ok {
+					return v
+				}
+				if inLoop[x] || busy[x] || other[x] {
+					giveUp = true
+					return [2]int{0, 0}
+				}
+				busy[x] = true
+				defer delete(busy, x)
+				preds := g.Preds(x)
+				res := [2]int{npush[x], npush[x]}
+				if len(preds) > 0 {
+					mn, mx := 1<<30, -1
+					for _, pr := range preds {
+						v := rec(pr)
+						if v[0] < mn {
+							mn = v[0]
+						}
+						if v[1] > mx {
+							mx = v[1]
+						}
+					}
+					res = [2]int{mn + npush[x], mx + npush[x]}
+				}
+				memo[x] = res
+				return res
+			}
+			mm := rec(b)
+			if giveUp {
+				continue
+			}
+			nret++
+			c.Sites++
+			key := fmt.Sprintf("%s:return#%d", fname(fn), nret)
+			switch {
+			case int64(mm[1]) < k: // on every path (infeasible type-switch fall-throughs make the minimum unreliable)
+				c.bad(R, key, p.ipos(ret), fmt.Sprintf("%s returns %d value(s) although no path to this return pushes more than %d: the caller receives whatever lay below (its own arguments)", fname(fn), k, mm[1]))
+			case k == 0 && mm[0] > 0:
+				c.bad(R, key, p.ipos(ret), fmt.Sprintf("%s pushes %d value(s) and then returns 0: the result it prepared is dropped (string.match without a match must return nil, i.e. one value: select('#', …) sees 0)", fname(fn), mm[0]))
+			default:
+				c.ok(R, key, p.ipos(ret), fmt.Sprintf("returns %d after pushing %d..%d", k, mm[0], mm[1]))
+			}
+		}
 	}
 }
